@@ -8,7 +8,7 @@ import glob, json, os, posixpath, stat
 from harness import common
 from harness.common import coq_list, coq_bytes
 
-REQ = ["Verif.lib.UploadShape", "Verif.gen.UploadGen", "Verif.lib.Paths", "Verif.lib.Upload", "Verif.lib.UploadHist"]
+REQ = ["Verif.lib.UploadShape", "Verif.gen.UploadGen", "Verif.lib.Paths", "Verif.lib.Upload", "Verif.lib.UploadHist", "Verif.lib.UploadConc"]
 
 
 def tail(s, n=2500):
@@ -30,12 +30,14 @@ def run(ctx):
                        "C19_registry_history); a link planted WHILE a call runs is followed (C19_concurrent_symlink_refuted, replayed "
                        "on the code as a note): outside the property, which quantifies over what the remote peer supplies; "
                        "hard links to a temporary are excluded by the invariant (a local actor's doing as well)",
-                       "ONE upload at a time per final name: the theorems (C19_atomic_publish .. C19_upload_history_sequential) are about "
-                       "sequential calls; two overlapping uploads of the same name share <name>.partial and are only replayed on the "
-                       "code (oracle/overlapping-uploads-same-name-tear-file)",
-                       "failing system calls (errno instead of death) are modelled for the registry only; in remote_putfile a raising "
-                       "f.close() (ENOSPC at flush) in _done/_err skips the unlink and leaves <name>.partial: not modelled, outside the "
-                       "property's quantifier (source error / disconnect / crash)",
+                       "two uploads at the same time are modelled with one file system and two file objects (UploadConc.v): for DISTINCT "
+                       "names (the four names final/.partial pairwise distinct) every schedule is covered by C19_concurrent_distinct_names; "
+                       "for ONE name the published file is torn (C19_concurrent_same_name_refuted = known finding "
+                       "oracle/overlapping-uploads-same-name-tear-file, replayed and compared with the model); buffered text is modelled as "
+                       "flushed at close() (blocks smaller than the io buffer)",
+                       "failing system calls of an upload: final name old-or-complete is proved (C19_upload_fault_atomic); a failing "
+                       "f.close() in _done/_err leaves <name>.partial (C19_upload_fault_leftover_refuted, replayed as an observation): "
+                       "outside the property's quantifier (source error / disconnect / crash)",
                        "a restart = the process is gone (handle and unflushed data lost), the next call starts on the directory as it "
                        "is; the CONTENT of a temporary left by a kill is not compared (only that it is a file), it depends on what the "
                        "dying process had flushed",
@@ -49,7 +51,7 @@ def run(ctx):
         names = gen_names(ctx)
         model_ok = ok
         if not ok:
-            model_ok, _ = ctx.coq_build(["lib/UploadHist.vo"])
+            model_ok, _ = ctx.coq_build(["lib/UploadConc.vo"])
         jobs = []
         paths_check(ctx, impl, names, jobs)
         upload_check(ctx, impl, names, jobs)
@@ -58,7 +60,8 @@ def run(ctx):
         publisher_check(ctx, impl, names, jobs)
         listing_check(ctx, impl, jobs)
         symlink_check(ctx, impl, jobs)
-        overlap_check(ctx, impl)
+        overlap_check(ctx, impl, jobs)
+        upload_fault_check(ctx, impl, jobs)
         history_check(ctx, impl, jobs)
         toctou_note(ctx, impl)
         if model_ok:
@@ -207,6 +210,10 @@ def corpus(ctx, impl):
             one_gather(ctx, impl, w["name"], sig=w["signature"])
         elif w["kind"] == "publisher":
             one_publish(ctx, impl, w["name"], sig=w["signature"])
+        elif w["kind"] == "gatherer-symlink":
+            gather_symlink_case(ctx, impl, w["name"], w["where"], w["text"], sig=w["signature"])
+        elif w["kind"] == "publisher-symlink":
+            publish_symlink_case(ctx, impl, w["name"], w["ext"], w["text"], sig=w["signature"])
 
 
 # ---------------------------------------------------------------------------
@@ -1296,35 +1303,44 @@ class HeldSrc:
         self.pending.pop(0).callback(data)
 
 
-def overlap_case(ctx, impl, name, a_blocks, b_blocks, variant, sig=None):
+def overlap_case(ctx, impl, name, a_blocks, b_blocks, variant, sig=None, collect=None):
     """A starts and delivers a_blocks; B starts, delivers b_blocks and finishes; then A finishes"""
     from twisted.python import failure
     arena, target, sent = impl.fresh("ovl")
     comp = posixpath.normpath(name)
-    prepopulate(target, comp, variant)
+    ents = prepopulate(target, comp, variant)
     final, tmp = os.path.join(target, comp), os.path.join(target, comp + ".partial")
     fu = impl.make_uploader(target, 0o640)
     outside0 = impl.outside_snapshot(arena)
     allowed = [view(final), [2] + list(b"".join(a_blocks)), [2] + list(b"".join(b_blocks))]
+    kinds = []
     A, B, ra, rb, seen = HeldSrc(), HeldSrc(), [], [], []
     try:
         fu.remote_putfile(name, A).addBoth(ra.append)
         for blk in a_blocks:
             A.give(blk)
         seen.append(("A has sent its blocks", view(final)))
+        kinds.append(kind(view(tmp)))
         fu.remote_putfile(name, B).addBoth(rb.append)
         for blk in b_blocks:
             B.give(blk)
         B.give(b"")
         seen.append(("B finished", view(final)))
+        kinds.append(kind(view(tmp)))
         A.give(b"")
         seen.append(("A finished", view(final)))
+        kinds.append(kind(view(tmp)))
     except BaseException as e:
         seen.append(("raised %s" % type(e).__name__, view(final)))
     res = ["fail:" + r.type.__name__ if isinstance(r, failure.Failure) else "ok" for r in (ra[:1] + rb[:1])]
     bad = [(w, bytes(v[1:]) if v[0] == 2 else v) for w, v in seen if v not in allowed]
     left = os.path.lexists(tmp)
     ctx.hist("overlap_outcome", "/".join(res))
+    if collect is not None and len(seen) == 3 and len(kinds) == 3:
+        es, cs = coq_ents(ents)
+        collect.append(dict(term="(%s, %s, %s, (%s, %s))" % (cb(final), coq_list([cb(x) for x in a_blocks]), coq_list([cb(x) for x in b_blocks]), es, cs),
+                            exp=[x for (w_, v), kd in zip(seen, kinds) for x in (v, kd)] + [[1 if r.startswith("fail") else 0 for r in res]],
+                            desc=dict(name=name, a=[x.hex() for x in a_blocks], b=[x.hex() for x in b_blocks], variant=variant, results=res)))
     if bad or left or impl.outside_snapshot(arena) != outside0:
         ctx.fail(sig or "oracle/overlapping-uploads-same-name-tear-file",
                  "two overlapping uploads of %r (A sends %r, then B sends %r and finishes, then A finishes; initial state %s; results %r): "
@@ -1334,8 +1350,70 @@ def overlap_case(ctx, impl, name, a_blocks, b_blocks, variant, sig=None):
                              variant=variant, results=res))
 
 
-def overlap_check(ctx, impl):
+def overlap_check(ctx, impl, jobs):
+    cases = []
     for name, a, b, variant in [("x", [b"AAAA"], [b"BBBBBBBB"], "empty"), ("x", [b"AAAA"], [b"BBBBBBBB"], "old"),
-                                ("x", [b"AAAAAAAA"], [b"BB"], "empty"), ("a/../x", [b"A1", b"A2"], [b"B1"], "old")]:
-        overlap_case(ctx, impl, name, a, b, variant)
+                                ("x", [b"AAAAAAAA"], [b"BB"], "empty"), ("a/../x", [b"A1", b"A2"], [b"B1"], "old"),
+                                ("x", [b"AA", b"A"], [b"BBBBB", b"BB"], "stale"), ("x", [], [b"BBBB"], "old"), ("x", [b"AAAA"], [], "old")]:
+        overlap_case(ctx, impl, name, a, b, variant, collect=cases)
         ctx.case(["overlap", name, [x.hex() for x in a], [x.hex() for x in b], variant], nontrivial=True)
+    jobs.append(make_job("C19_overlap_0", "correspondence/overlapping-uploads", "",
+                         "str * list (list N) * list (list N) * (list (str * ent) * list (list N))", [c["term"] for c in cases],
+                         """Definition obs (c : str * list (list N) * list (list N) * (list (str * ent) * list (list N))) : list (list N) :=
+  let '(final, a, b, (ents, cont)) := c in tear_views (mk_st ents cont) final a b.
+""", [c["exp"] for c in cases], lambda i: "overlapping uploads %r" % (cases[i]["desc"],)))
+
+
+# ---------------------------------------------------------------------------
+# 10. a system call of an UPLOAD fails with an errno (persistently for its kind)
+
+def upload_fault_check(ctx, impl, jobs):
+    import errno
+    cases, left_at = [], {}
+    for variant in ["empty", "old", "stale"]:
+        for blocks, ending in [([b"da", b"ta"], "done"), ([b"da", b"ta"], ("error", 1, "source")), ([], "done"), ([b"x"], ("error", 0, "disconnect"))]:
+            name = "ok"
+            good = blocks if ending == "done" else blocks[:ending[1]]
+            script = lambda: list(blocks) if ending == "done" else list(good) + [impl.source_error(ending[2])]
+            arena, target, sent = impl.fresh("upf")
+            ents = prepopulate(target, name, variant)
+            final, tmp = os.path.join(target, name), os.path.join(target, name + ".partial")
+            v0, k0 = view(final), kind(view(tmp))
+            rec = impl.Recorder(arena)
+            impl.putfile(impl.make_uploader(target, 0o640), name, script(), rec)
+            rec.cleanup()
+            n = len(rec.ops)
+            complete = [2] + list(b"".join(blocks))
+            exp = [v0, k0]                       # model operation 0 (the conditional unlink of a link) has no counterpart here
+            for k in range(n):
+                arena, target, sent = impl.fresh("upf")
+                prepopulate(target, name, variant)
+                outside0 = impl.outside_snapshot(arena)
+                rest0 = {a: b for a, b in impl.snap(target).items() if a not in (name, name + ".partial")}
+                r = impl.Recorder(arena, fail_at=k, fail_errno=errno.ENOSPC, persistent=True)
+                out = impl.putfile(impl.make_uploader(target, 0o640), name, script(), r)
+                r.cleanup()
+                v = view(final)
+                rest = {a: b for a, b in impl.snap(target).items() if a not in (name, name + ".partial")}
+                ctx.case(["upload-fault", variant, [b.hex() for b in blocks], ending, k], nontrivial=True)
+                ctx.hist("upload_fault_op", rec.ops[k][0])
+                if not (v == v0 or (ending == "done" and v == complete)) or rest != rest0 or impl.outside_snapshot(arena) != outside0:
+                    ctx.fail("oracle/upload-fault-tears-final-name", "operation %d (%s) of the upload of %r fails with ENOSPC (initial state %s, "
+                             "ending %s, call -> %s): the final name shows %r (before %r), other entries %s, operations %r"
+                             % (k, rec.ops[k][0], name, variant, ending, out, bytes(v[1:]) if v[0] == 2 else v, v0,
+                                "changed" if rest != rest0 else "unchanged", r.ops),
+                             replay=dict(name=name, variant=variant, blocks=[b.decode("latin1") for b in blocks], ending=ending, failing_op=k, ops=r.ops))
+                if os.path.lexists(tmp) and rec.ops[k][0] in ("close", "unlink"):
+                    left_at[rec.ops[k][0]] = left_at.get(rec.ops[k][0], 0) + 1
+                exp += [v, kind(view(tmp))]
+            es, cs = coq_ents(ents)
+            cases.append(dict(term="(%s, %s, %s, (%s, %s))" % (cb(final), coq_list([cb(b) for b in good]), "Done" if ending == "done" else "SrcError", es, cs),
+                              exp=exp, desc=dict(variant=variant, blocks=[b.hex() for b in blocks], ending=ending)))
+    ctx.notes.append("observation, outside C19's quantifier (C19_upload_fault_leftover_refuted): when f.close() or the unlink in remote_putfile's "
+                     "_done/_err fails (ENOSPC) <name>.partial is left behind: %r cases of the sweep; the final name stayed old-or-complete in all "
+                     "of them (C19_upload_fault_atomic)" % (left_at,))
+    jobs.append(make_job("C19_uploadfault_0", "correspondence/upload-fault", "",
+                         "str * list (list N) * outcome * (list (str * ent) * list (list N))", [c["term"] for c in cases],
+                         """Definition obs (c : str * list (list N) * outcome * (list (str * ent) * list (list N))) : list (list N) :=
+  let '(final, blocks, oc, (ents, cont)) := c in upload_fault_views (mk_st ents cont) final blocks oc.
+""", [c["exp"] for c in cases], lambda i: "upload with a failing operation %r" % (cases[i]["desc"],)))
